@@ -75,6 +75,10 @@ type Term struct {
 	Rat  *big.Rat // value of a Real constant
 	// Conservative interval of an Int term (math mode); nil = unbounded.
 	Lo, Hi *big.Int
+	// UMax is an upper bound of the unsigned value of a bit-vector term (sound, cheap: computed
+	// bottom-up at construction). It lets `x % c` with x provably below c fold to x, which
+	// removes the modulo chains of hash/adler32 on short inputs.
+	UMax uint64
 	// HasFP: an IEEE floating-point term occurs in the DAG below (such queries go to a
 	// non-incremental solver context, which is much faster on them).
 	HasFP bool
@@ -127,8 +131,90 @@ func (b *Builder) mk(t *Term) *Term {
 			t.HasFP = true
 		}
 	}
+	if t.Sort.K == KBV {
+		t.UMax = umaxOf(t)
+	}
 	b.tab[k] = t
 	return t
+}
+
+func addNoOvf(a, b, m uint64) (uint64, bool) {
+	s := a + b
+	if s < a || s > m {
+		return m, false
+	}
+	return s, true
+}
+
+func umaxOf(t *Term) uint64 {
+	m := mask(t.Sort.W)
+	switch t.Kind {
+	case TConst:
+		return t.Val
+	case TVar:
+		return m
+	}
+	a := t.Args
+	switch {
+	case strings.HasPrefix(t.Head, "(_ zero_extend"):
+		return a[0].UMax
+	case strings.HasPrefix(t.Head, "(_ extract"):
+		// only low extracts keep a bound
+		if strings.HasSuffix(t.Head, " 0)") && a[0].UMax <= m {
+			return a[0].UMax
+		}
+		return m
+	}
+	switch t.Head {
+	case "bvadd":
+		s, _ := addNoOvf(a[0].UMax, a[1].UMax, m)
+		return s
+	case "bvmul":
+		if a[0].UMax != 0 && a[1].UMax > m/a[0].UMax {
+			return m
+		}
+		return a[0].UMax * a[1].UMax
+	case "bvurem":
+		if a[1].IsConst() && a[1].Val > 0 {
+			if a[0].UMax < a[1].Val-1 {
+				return a[0].UMax
+			}
+			return a[1].Val - 1
+		}
+		return a[0].UMax
+	case "bvudiv":
+		if a[1].IsConst() && a[1].Val > 0 {
+			return a[0].UMax / a[1].Val
+		}
+		return m
+	case "bvand":
+		if a[0].UMax < a[1].UMax {
+			return a[0].UMax
+		}
+		return a[1].UMax
+	case "bvor", "bvxor":
+		x := a[0].UMax | a[1].UMax
+		// smallest 2^k-1 >= x
+		r := uint64(0)
+		for r < x {
+			r = r<<1 | 1
+		}
+		if r > m {
+			return m
+		}
+		return r
+	case "bvlshr":
+		if a[1].IsConst() && a[1].Val < 64 {
+			return a[0].UMax >> a[1].Val
+		}
+		return a[0].UMax
+	case "ite":
+		if a[1].UMax > a[2].UMax {
+			return a[1].UMax
+		}
+		return a[2].UMax
+	}
+	return m
 }
 
 // ---------------------------------------------------------------------------------------
@@ -522,6 +608,12 @@ func (b *Builder) BVBin(op string, x, y *Term) *Term {
 			return b.BVC(r, w)
 		}
 	}
+	if op == "bvurem" && y.IsConst() && y.Val > 0 && x.UMax < y.Val {
+		return x
+	}
+	if op == "bvudiv" && y.IsConst() && y.Val > 0 && x.UMax < y.Val {
+		return b.BVC(0, w)
+	}
 	// light identities
 	switch op {
 	case "bvadd", "bvor", "bvxor":
@@ -593,6 +685,18 @@ func (b *Builder) BVCmp(op string, x, y *Term) *Term {
 	}
 	if x == y {
 		return b.BoolC(op == "bvule" || op == "bvsle")
+	}
+	if op == "bvult" && y.IsConst() && x.UMax < y.Val {
+		return b.True
+	}
+	if op == "bvule" && y.IsConst() && x.UMax <= y.Val {
+		return b.True
+	}
+	if op == "bvult" && x.IsConst() && y.UMax <= x.Val {
+		return b.False
+	}
+	if op == "bvule" && x.IsConst() && y.UMax < x.Val {
+		return b.False
 	}
 	// unsigned comparisons against range extremes
 	if op == "bvult" && y.IsConst() && y.Val == 0 {
@@ -793,6 +897,14 @@ func (b *Builder) IntDivE(x, y *Term) *Term {
 		_ = m
 		return b.IntC(q)
 	}
+	if y.IsConst() && y.Big.Sign() > 0 && x.Lo != nil && x.Hi != nil && x.Lo.Sign() >= 0 {
+		if x.Hi.Cmp(y.Big) < 0 {
+			return b.IntC64(0)
+		}
+		t := b.App("div", Int, x, y)
+		b.setIv(t, new(big.Int).Div(x.Lo, y.Big), new(big.Int).Div(x.Hi, y.Big))
+		return t
+	}
 	t := b.App("div", Int, x, y)
 	if x.Lo != nil && x.Hi != nil {
 		a := bigMax(new(big.Int).Abs(x.Lo), new(big.Int).Abs(x.Hi))
@@ -806,6 +918,9 @@ func (b *Builder) IntModE(x, y *Term) *Term {
 	if x.IsConst() && y.IsConst() && y.Big.Sign() != 0 {
 		_, m := new(big.Int).DivMod(x.Big, y.Big, new(big.Int))
 		return b.IntC(m)
+	}
+	if y.IsConst() && y.Big.Sign() > 0 && x.Lo != nil && x.Hi != nil && x.Lo.Sign() >= 0 && x.Hi.Cmp(y.Big) < 0 {
+		return x
 	}
 	t := b.App("mod", Int, x, y)
 	if y.Lo != nil && y.Hi != nil {
